@@ -124,7 +124,13 @@ def execute(sc):
             elif k in ("compat", "equiv"):
                 a, b = op[1], op[2]
                 fn = tools.compatible_units if k == "compat" else tools.equivalent_units
-                got = bool(fn(a, b))
+                # the helpers accept unit strings, pint units and quantities alike
+                form = (oi + len(a) + 2 * len(b)) % 4
+                aa = tools.UNITS.Unit(a) if form == 1 else (tools.UNITS.Quantity(np.array([1.0, 2.0]), a) if form == 2 else a)
+                bb = tools.UNITS.Unit(b) if form == 3 else b
+                if a == "" and form == 2:
+                    aa = a
+                got = bool(fn(aa, bb))
                 want = compat(a, b) if k == "compat" else equiv(a, b)
                 if got != want:
                     v("unit-compat" if k == "compat" else "unit-equiv", f"{a}|{b}",
